@@ -6,7 +6,6 @@ import (
 	"os"
 )
 
-func serveMain(args []string) int  { fmt.Fprintln(os.Stderr, "serve: not implemented"); return 2 }
 
 // replayFile re-runs the case of a recorded violation against the current tree.
 func replayFile(path string) int {
